@@ -22,6 +22,7 @@ use signal_hook::{
 use std::collections::HashMap;
 use std::io::ErrorKind;
 use std::os::fd::{BorrowedFd, OwnedFd};
+#[cfg_attr(feature = "verif-hooks", allow(unused_imports))]
 use std::{
     collections::{HashSet, VecDeque},
     fs::File,
@@ -390,6 +391,10 @@ impl Write for UnixTerminal {
 impl Terminal for UnixTerminal {
     #[tracing::instrument(name="[UnixTerminal.poll]", level="trace", skip_all, fields(?timeout))]
     fn poll(&mut self, timeout: Option<Duration>) -> Result<Option<TerminalEvent>, Error> {
+        // verification hook: deadlines read the simulated clock
+        #[cfg(feature = "verif-hooks")]
+        use crate::common::verif_clock::Instant;
+
         self.write_queue.flush()?;
 
         let mut first_loop = true;
